@@ -5630,11 +5630,14 @@ def merge(
         )
 
     if how == "leftsemi":
-        if right_index or any(
-            o not in right.columns for o in _convert_to_list(right_on)
+        if (
+            right_index
+            or left_index
+            or any(o not in right.columns for o in _convert_to_list(right_on))
         ):
             raise NotImplementedError(
-                "how='leftsemi' does not support right_index=True or on columns from the index"
+                "how='leftsemi' does not support left_index=True, right_index=True "
+                "or on columns from the index"
             )
         else:
             right = right[_convert_to_list(right_on)].rename(
